@@ -264,6 +264,18 @@ def _threading(ctx, P):
             ctx.report("R08.4", deco, "result name", f"the result is named {name_val!r}; expected the input's name followed by the suffix")
         else:
             ctx.ok("R08.4", "result name", "phi.name + suffix")
+        # the empty suffix is a suffix like any other: the result is then named exactly like the input
+        ev.events, ev.decisions, ev._prefix, ev._pending = [], [], [], []
+        au.clear()
+        out2 = ev.call(wrapper, [make_da("phi", [Sym("t"), Sym("zc")], name=Sym("phi_name")), make_da("theta", [Sym("t"), Sym("zc")]), make_da("levels", [Sym("lev")]), Sym("zc"), Sym("zc"), Sym("lev")],
+                       {"suffix": "", "mask_edges": Sym("U_MASK"), "bypass_checks": Sym("U_BYPASS"), "logarithmic": Sym("U_LOG")}, None)
+        sets2 = [e for e in ev.events if e[0] == "setattr" and e[2] == "name"]
+        nv2 = sets2[-1][3] if sets2 else (out2.attrs.get("name") if isinstance(out2, Obj) else None)
+        parts2 = [x for x in nv2.parts if x != ""] if isinstance(nv2, Text) else [nv2]
+        if parts2 != [Sym("phi_name")]:
+            ctx.report("R08.4", deco, "result name with suffix=''", f"with an empty suffix the result is named {nv2!r}; expected exactly the input's name")
+        else:
+            ctx.ok("R08.4", "result name with suffix=''", "the input's name")
         if isinstance(out, Obj):
             others, unknown_ops = foreign_ops(out.eff)
             if unknown_ops:
